@@ -179,6 +179,46 @@ def rule_caller(P):
     return r
 
 
+def rule_consume(P):
+    from ..typestate import exactly_once
+    r = Rule("C31-consume", "K11", "each decoded frame's payload is removed from the input exactly once per loop iteration", floor=1)
+    g = P.fn("ws_evhttp_read_cb")
+    call = list(g.calls("get_ws_frame"))
+    if len(call) != 1:
+        r.brk("get_ws_frame call not found")
+        return r
+    c = call[0]
+    lenarg = strip(c.e[2][3])
+    lenv = strip(lenarg[1]) if is_e(lenarg, "addr") else None
+    if lenv is None:
+        r.brk("payload length out-parameter not recognised")
+        return r
+    def consume(el):
+        if el.e[0] != "call":
+            return False
+        n = callee_name(el.e)
+        if n == "evbuffer_drain" and eq(strip(el.e[2][1]), lenv) and is_e(strip(el.e[2][0]), "var") and strip(el.e[2][0])[1] == "input":
+            return True
+        if n == "evbuffer_remove_buffer" and eq(strip(el.e[2][2]), lenv) and is_e(strip(el.e[2][0]), "var") and strip(el.e[2][0])[1] == "input":
+            return True
+        return False
+    # start: after the header bytes were drained (the drain whose amount is not the payload length)
+    hdr = [el for el in g.calls("evbuffer_drain") if not eq(strip(el.e[2][1]), lenv) and g.dominates(c.bid, el.bid)]
+    if not hdr:
+        r.brk("header drain not found")
+        return r
+    res = exactly_once(g, hdr[0].pos(), consume, lambda el: el is c)
+    sites = [el.where() for el in g.elems() if consume(el)]
+    # leaving through disconnect/bailout without consuming is fine (connection is being closed): leaks that reach the next get_ws_frame are the defect
+    leaks = [w for w in res["leaks"] if w is c]
+    r.inst("payload", {"consume_sites": sites, "double": [x.where() for x in res["doubles"]], "reaches_next_frame_unconsumed": len(leaks)})
+    for w in res["doubles"]:
+        r.bad("K11:ws_evhttp_read_cb:payload-consumed-twice", w.where(), g.name, "the payload of one frame is removed from the input twice on a path (the second removal eats the beginning of the next frame)")
+    if leaks:
+        r.bad("K11:ws_evhttp_read_cb:payload-not-consumed", c.where(), g.name, "a path returns to get_ws_frame without having removed the previous frame's payload (it would be decoded as a frame header)")
+    return r
+
+
 def run(ctx, config):
     P = ctx.prog(UNITS, config)
-    return [rule_frame(P), rule_caller(P)]
+    return [rule_frame(P), rule_caller(P), rule_consume(P)]
